@@ -24,7 +24,7 @@ partial def loop (h : IO.FS.Stream) (out : IO.FS.Stream) (st : Ïƒ) (step : Ïƒ â†
   let line â† h.getLine
   if line.isEmpty then
     return ()
-  let line := (line.dropRightWhile (fun c => c = '\n' || c = '\r'))
+  let line := String.ofList (line.toList.reverse.dropWhile (fun c => c = '\n' || c = '\r')).reverse
   let (st', outs) := step st line
   for o in outs do
     out.putStrLn o
